@@ -501,7 +501,7 @@ def check_C15(tier: str, seed: int) -> int:
 
 @register("C12")
 def check_C12(tier: str, seed: int) -> int:
-    v = fw.Verdict("C12", tier, seed, "proof")
+    v = fw.Verdict("C12", tier, seed, "translation_validation")
     ps = fw.ProofStatus("C12", ["Properties.C12"])
     dl = layers.dispatch_layer(seed, DISPATCH_BUDGET[tier])
     ok1 = use_simple_layer(v, "C12", dl, "dispatch", ["C12"])
@@ -524,6 +524,11 @@ def check_C12(tier: str, seed: int) -> int:
     cov["samples"] = [dl["sample"]]
     cov["dispatcher_runs"] = dl["cases"]
     cov["pairs_certified"] = dl["rows"]
+    cov["programs"] = dl["steps"]
+    cov["disagreements_checked"] = dl["n_findings"]
+    cov["explanation"] = ("programs = assignment problems whose solution (scipy linear_sum_assignment) was put through Hive.Dispatch.checkFleet; disagreements_checked = "
+                          "runs in which the checker, a pair monitor or the filter comparison did not accept the implementation's answer (each becomes a violation, a known "
+                          "finding or a broken correspondence)")
     cov["trusted_base"] = cov["trusted_base"] + [
         "scipy.optimize.linear_sum_assignment is NOT modelled and NOT trusted: each of its answers is accepted only with a dual certificate checked by the Lean function "
         "Hive.Dispatch.checkFleet, whose soundness is the theorem Hive.C12.checkFleet_sound; the potentials come from an untrusted Hungarian implementation in the harness",
@@ -548,7 +553,7 @@ _ROUTER_RULE = ("function-level: generated strongly connected street graphs (3-1
 
 
 def router_check(prop: str, tier: str, seed: int, assumptions: List[str]) -> int:
-    v = fw.Verdict(prop, tier, seed, "proof")
+    v = fw.Verdict(prop, tier, seed, "translation_validation" if prop == "C14" else "proof")
     ps = fw.ProofStatus(prop, [f"Properties.{prop}"])
     rl = layers.router_layer(seed, ROUTER_BUDGET[tier])
     ok1 = use_simple_layer(v, prop, rl, "router", [prop])
@@ -565,6 +570,12 @@ def router_check(prop: str, tier: str, seed: int, assumptions: List[str]) -> int
     cov["samples"] = [rl["sample"]]
     cov["graphs"] = rl["cases"]
     cov["links"] = rl["rows"]
+    if prop == "C14":
+        # translation validation: every answer of the real router is a "program" put through the verified checker
+        cov["programs"] = rl["steps"]
+        cov["disagreements_checked"] = rl["n_findings"]
+        cov["explanation"] = ("programs = route queries whose junction path (networkx.astar_path with the repository's heuristic) was put through Hive.Router.certPath; "
+                              "disagreements_checked = answers the checker or the comparison did not accept (each becomes a violation or a broken correspondence)")
     cov["trusted_base"] = cov["trusted_base"] + [
         "networkx.astar_path is NOT modelled and NOT trusted: its answer is a parameter of the route model and is accepted as fastest only with node potentials checked by the "
         "Lean function Hive.Router.certPath (soundness: Hive.C14.cert_fastest); the potentials come from an untrusted exact Dijkstra in the harness",
